@@ -31,6 +31,7 @@ import (
 	"strings"
 	"sync"
 	"time"
+	"unsafe"
 
 	"github.com/markkurossi/mpc/ot"
 	"github.com/markkurossi/mpc/p2p"
@@ -283,6 +284,7 @@ type link struct {
 	rpos    int
 	closed  bool
 	writes  []int
+	wbufs   []uintptr // identity of the buffer of every Write (address of p[0])
 	frag    fragSpec
 	nread   uint64
 	rlog    uint64
@@ -323,6 +325,9 @@ func (l *link) write(p []byte) (int, error) {
 	}
 	l.data = append(l.data, cp...)
 	l.writes = append(l.writes, len(p))
+	if len(p) > 0 {
+		l.wbufs = append(l.wbufs, uintptr(unsafe.Pointer(&p[0])))
+	}
 	l.cond.Broadcast()
 	l.mu.Unlock()
 	return len(p), nil
@@ -610,7 +615,24 @@ func (d *direction) finish(o *hxlib.Out, idx int, mode string) (string, string) 
 		l := d.lnk
 		d.leftWin = d.recver.ReadBuf[d.recver.ReadStart:d.recver.ReadEnd]
 		d.leftPending = l.data[l.rpos:]
-		fmt.Fprintf(&res, "w=%s;wh=%016x;", rle(l.writes), fnv1a(fnvInit, l.data))
+		// buffer identities, numbered by first appearance (the ring model
+		// numbers the buffers in the order the sender first uses them)
+		ids := make([]byte, len(l.wbufs))
+		seen := map[uintptr]byte{}
+		for i, pb := range l.wbufs {
+			id, ok := seen[pb]
+			if !ok {
+				id = byte(len(seen))
+				seen[pb] = id
+			}
+			ids[i] = id
+		}
+		o.Count(fmt.Sprintf("ring_distinct_buffers_%d", len(seen)))
+		rg := "-" // the driver runs the ring model only for streams up to 1 MiB
+		if len(ref) <= 1048576 {
+			rg = fmt.Sprintf("%d,%016x", len(ids), fnv1a(fnvInit, ids))
+		}
+		fmt.Fprintf(&res, "w=%s;wh=%016x;rg=%s;", rle(l.writes), fnv1a(fnvInit, l.data), rg)
 		// oracle: wire bytes = reference encoding; counters = bytes moved
 		if !bytes.Equal(l.data, ref) {
 			o.Fail("c11-wire-mismatch", detail(map[string]any{"wire_len": len(l.data), "want_len": len(ref),
